@@ -80,6 +80,8 @@ pub struct St {
     panicked: bool,
     /// position in the constraining log (trace validation only)
     logpos: u16,
+    /// relaxed probe stores seen so far in the replay: (location, value, thread, own clock component)
+    probes: Vec<(u8, u8, u8, u8)>,
     ck: Option<Box<(Clocks, Clocks)>>,
 }
 
@@ -151,6 +153,7 @@ pub struct Sc<'a> {
     n: usize,
     /// (send_after_rx_drop, notify_one_choice, try_can_fail)
     flags: std::cell::Cell<(bool, bool, bool)>,
+    stale: std::cell::RefCell<Option<Stale>>,
 }
 
 enum Step {
@@ -162,7 +165,7 @@ enum Step {
 
 impl<'a> Sc<'a> {
     pub fn new(prog: &'a Program, opts: Opts) -> Sc<'a> {
-        Sc { prog, opts, n: prog.n_threads(), flags: std::cell::Cell::new((false, false, false)) }
+        Sc { prog, opts, n: prog.n_threads(), flags: std::cell::Cell::new((false, false, false)), stale: std::cell::RefCell::new(None) }
     }
 
     fn init(&self) -> St {
@@ -225,6 +228,7 @@ impl<'a> Sc<'a> {
             lazy_init: [false; 3],
             panicked: false,
             logpos: 0,
+            probes: vec![],
             ck: if self.opts.clocks { Some(Box::new((mk(), mk()))) } else { None },
         }
     }
@@ -645,9 +649,10 @@ impl<'a> Sc<'a> {
                     s.tok[u] = true;
                 }
                 if let Some(b) = &mut s.ck {
-                    // hb_min: only the unpark whose token / wake-up the park consumes
+                    // every unpark that precedes the park-return which consumes the token is ordered
+                    // before it (the token is one atomic: later unparks continue the release sequence)
                     let tc = b.0.th[t];
-                    b.0.tok[u] = tc;
+                    vc_join(&mut b.0.tok[u], &tc);
                     b.0.th[t][t] += 1;
                     let tc = b.1.th[t];
                     vc_join(&mut b.1.tok[u], &tc);
@@ -1009,6 +1014,7 @@ impl<'a> Sc<'a> {
     /// thread of one log entry to a different thread of the next entry while the first thread's
     /// next operation could have completed in that state and its last operation was not a yield.
     pub fn replay(&self, log: &[(u8, u8)], results: &Outcome, end: End, free_atomics: bool) -> Replay {
+        *self.stale.borrow_mut() = None;
         let mut best: Option<u32> = None;
         let mut seen: HashSet<(St, u32)> = HashSet::new();
         let mut stack = vec![(self.init(), 0u32)];
@@ -1092,6 +1098,42 @@ impl<'a> Sc<'a> {
                                             }
                                         }
                                     }
+                                    // relaxed probes: coherence against the happens-before the primitives must provide
+                                    if s.ck.is_some() {
+                                        let op = &self.prog.threads[t][st.pc[t] as usize];
+                                        match op {
+                                            Op::Store { a, v, .. } => {
+                                                let comp = {
+                                                    let b = s.ck.as_mut().unwrap();
+                                                    b.0.th[t][t] += 1;
+                                                    b.1.th[t][t] += 1;
+                                                    b.0.th[t][t]
+                                                };
+                                                s.probes.push((*a, *v, t as u8, comp));
+                                            }
+                                            Op::Load { a, .. } => {
+                                                let r = *s.res[t].last().unwrap_or(&0);
+                                                let cur = s.ck.as_ref().unwrap().0.th[t];
+                                                let src = s.probes.iter().find(|p| p.0 == *a && p.1 as i64 == r).cloned();
+                                                let mut stale: Option<Stale> = None;
+                                                for p in s.probes.iter().filter(|p| p.0 == *a) {
+                                                    let hb = p.3 <= cur[p.2 as usize];
+                                                    let newer = match src {
+                                                        None => r == 0,
+                                                        Some(w) => w.2 == p.2 && p.3 > w.3,
+                                                    };
+                                                    if hb && newer {
+                                                        stale = Some(Stale { pos, thread: t, loc: *a, read: r, newer: p.1 as i64 });
+                                                    }
+                                                }
+                                                if let Some(x) = stale {
+                                                    *self.stale.borrow_mut() = Some(x);
+                                                    continue;
+                                                }
+                                            }
+                                            _ => {}
+                                        }
+                                    }
                                     s.logpos += 1;
                                     stack.push((s, c));
                                 }
@@ -1104,8 +1146,18 @@ impl<'a> Sc<'a> {
         }
         match best {
             Some(b) => Replay::Accepted(b),
-            None => Replay::Rejected,
+            None => {
+                if self.stale.borrow().is_some() {
+                    Replay::Stale
+                } else {
+                    Replay::Rejected
+                }
+            }
         }
+    }
+
+    pub fn last_stale(&self) -> Option<Stale> {
+        self.stale.borrow().clone()
     }
 }
 
@@ -1114,6 +1166,19 @@ pub enum Replay {
     Accepted(u32),
     Rejected,
     Inconclusive,
+    /// every replay consistent with the log contains a stale read (see `Sc::last_stale`)
+    Stale,
+}
+
+/// A relaxed load returned a value although a newer store of the (single) writer of the location
+/// happens-before the load along the edges the primitives must provide.
+#[derive(Clone, Debug, PartialEq, Eq)]
+pub struct Stale {
+    pub pos: usize,
+    pub thread: usize,
+    pub loc: u8,
+    pub read: i64,
+    pub newer: i64,
 }
 
 #[derive(Clone, Copy, Debug, PartialEq, Eq)]
